@@ -1843,7 +1843,12 @@ func (r *Redis) TTLCtx(ctx context.Context, key string) (val int, err error) {
 			return err
 		}
 
-		val = int(duration / time.Second)
+		if duration >= 0 {
+			val = int(duration / time.Second)
+		} else {
+			// -2：键不存在；-1：键存在但未设置过期时间（go-redis 以纳秒原样返回）
+			val = int(duration)
+		}
 		return nil
 	}, acceptable)
 
